@@ -274,6 +274,8 @@ def expected(spec, with_links=True):
     model.matches = []
     model.charge_override = {}
     model.extra_inter = []
+    model.removed = set()
+    model.n_removed = 0
     if not with_links:
         return model
 
@@ -389,7 +391,9 @@ def expected(spec, with_links=True):
         lnk = m["spec"]
         for at in lnk["atoms"]:
             rep = at["attrs"].get("replace")
-            if rep:
+            if rep and "atomname" in rep and rep["atomname"] is None:
+                model.removed.add(m["atoms"][at["key"]])
+            elif rep:
                 model.charge_override.setdefault(m["atoms"][at["key"]], []).append((m["link"], rep))
         for it in lnk["inter"]:
             atoms = tuple(m["atoms"][key] for key in it["atoms"])
@@ -408,8 +412,34 @@ def expected(spec, with_links=True):
         for pair in atom_edges:
             a, b = tuple(pair)
             model.edges.add(frozenset((m["atoms"][a], m["atoms"][b])))
+    remove_atoms(model)
+    if model.invalid:
+        return model
     apply_mods(spec, model)
     return model
+
+
+def remove_atoms(model):
+    """Atoms scheduled for removal by an applied link (replace atomname null) disappear after all
+    links were applied, together with every interaction and edge that involves them."""
+    if not model.removed:
+        return
+    keep = [i for i in range(1, len(model.atoms) + 1) if i not in model.removed]
+    renum = {old: new for new, old in enumerate(keep, start=1)}
+    model.atoms = [model.atoms[i - 1] for i in keep]
+    model.inter = {(sec, tuple(renum[a] for a in atoms), ver): val
+                   for (sec, atoms, ver), val in model.inter.items()
+                   if not any(a in model.removed for a in atoms)}
+    model.edges = {frozenset(renum[a] for a in e) for e in model.edges if not (e & model.removed)}
+    model.block_edges = {frozenset(renum[a] for a in e) for e in model.block_edges if not (e & model.removed)}
+    model.charge_override = {renum[a]: v for a, v in model.charge_override.items() if a not in model.removed}
+    for res in model.residues:
+        mine = [i for i in range(res["first"], res["first"] + res["natoms"]) if i not in model.removed]
+        res["natoms"] = len(mine)
+        res["first"] = renum[mine[0]] if mine else None
+        if not mine:
+            model.invalid = "a residue loses all of its atoms (outside the domain: empty residues)"
+    model.n_removed = len(model.removed)
 
 
 PROTEIN_RESNAMES = ("GLY|ALA|CYS|VAL|LEU|ILE|MET|PRO|HYP|ASN|GLN|ASP|ASP0|GLU|GLU0|THR|SER|LYS|LYS0|"
